@@ -611,9 +611,13 @@ def gen_wal(seed):
         if rng.random() < 0.3:
             scripts['T_' + b] = {'W1': [['ret', 'i1']], 'W2': [['raise']]}
             handlers.append(typed(b, rng.choice(['W1', 'W2']), 'T_' + b, rng.choice(['sync', 'async'])))
-    if nb > 1 and rng.random() < 0.5:
+    if nb > 1 and rng.random() < 0.6:
         a, c = rng.sample(names, 2)
-        handlers.append(fwd(a, c))
+        f = fwd(a, c)
+        if rng.random() < 0.5:
+            handlers.insert(0, f)      # forwarded before the bus's own handlers run: the event is in flight on two buses at once
+        else:
+            handlers.append(f)
     payloads = [
         {'n': 1, 's': 'plain'},
         {'n': -5, 's': 'h\u00e9llo \u2603 \u4e2d\u6587 \U0001F600', 'tags': ['a', 'b\n', '"q"'], 'nested': {'k': [1, {'z': None}], 'u': '\u00fc'}},
